@@ -997,7 +997,14 @@ class WSGIApp:
         if type(new_submodel_element) is not type(submodel_element):
             # update_from() cannot turn an object into one of another class (it would stop half-way)
             raise BadRequest(f"{submodel_element!r} cannot be replaced by a {type(new_submodel_element).__name__}!")
-        submodel_element.update_from(new_submodel_element)
+        try:
+            # a changed idShort re-keys the element in its parent, which refuses a taken or missing idShort up front
+            submodel_element.update_from(new_submodel_element)
+        except model.AASConstraintViolation as e:
+            if e.constraint_id != 22:
+                raise BadRequest(str(e)) from e
+            raise Conflict(f"SubmodelElement with idShort {new_submodel_element.id_short} already exists "
+                           f"within {submodel_element.parent}!")
         submodel_element.commit()
         return response_t()
 
